@@ -48,14 +48,22 @@ def frame_ids(xyz, scale=1.0):
     a = np.asarray(xyz)
     if a.size == 0 or a.ndim != 3:
         return []
-    return [int(round(float(v) / scale * 10.0)) - 1 for v in a[:, 0, 0]]
+    out = []
+    for v in a[:, 0, 0]:
+        v = float(v) / scale * 10.0
+        out.append(int(round(v)) - 1 if np.isfinite(v) and abs(v) < 1e6 else -1)   # garbage decodes to -1
+    return out
 
 
 def atom_ids(xyz, scale=1.0):
     a = np.asarray(xyz)
     if a.size == 0 or a.ndim != 3:
         return []
-    return [int(round(float(v) / scale * 100.0)) - 1 for v in a[0, :, 1]]
+    out = []
+    for v in a[0, :, 1]:
+        v = float(v) / scale * 100.0
+        out.append(int(round(v)) - 1 if np.isfinite(v) and abs(v) < 1e6 else -1)
+    return out
 
 
 NATIVE_SCALE = {"h5": 1.0, "xtc": 1.0, "trr": 1.0, "gro": 1.0, "lh5": 1.0}   # everything else: Angstrom
